@@ -20,6 +20,7 @@ RULE = (
     "square, HP cycle, log-HP, diff-log-demean). Also the raw 18-moment summary against explicit formulas. "
     "Agreement |got-ref| <= 1e-9 max(1,|ref|,sum|terms|) (GSL 1e-12). Non-trivial = non-default options and (E>=2 or a "
     "filter present); distinct by (loss descriptor, data hash)."
+    ' Six per cent of the generated data sets are expressed in units of 1e-13..1e-9 (every definition is scale-free or scale-equivariant).'
 )
 ASSUMPTIONS = [
     "cases whose value the definition does not determine to working accuracy are skipped and counted: default moments of a "
